@@ -119,10 +119,10 @@ func (fr *Frame) callAssigns(c *ssa.CallCommon) (map[string]bool, bool) {
 			!strings.HasPrefix(ci.display, "field package-operator.run/") && !strings.HasPrefix(ci.display, "dynamic:")
 		if c.IsInvoke() && accessorIface(ci.display) {
 			m := ci.display[strings.LastIndex(ci.display, ".")+1:]
-			if strings.HasPrefix(m, "Get") || strings.HasPrefix(m, "Is") || strings.HasPrefix(m, "Has") {
+			if !accessorMutator(m) {
 				return out, false
 			}
-			if strings.HasPrefix(m, "Set") {
+			if accessorMutator(m) {
 				for _, mn := range sortedKeys(ex.S.Models) {
 					if md := ex.S.Models[mn]; len(md.Params) > 0 && md.Params[0].Obj && md.Params[0].Name == "o" && !md.Ghost {
 						an, _ := ex.modelArray(mn)
@@ -333,10 +333,10 @@ func (fr *Frame) call(in ssa.Instruction, c *ssa.CallCommon) []Val {
 	if ci.invoke && accessorIface(ci.display) {
 		m := ci.display[strings.LastIndex(ci.display, ".")+1:]
 		ex.usedSpecs["accessor-model "+shortName(ci.display)] = true
-		if strings.HasPrefix(m, "Get") || strings.HasPrefix(m, "Is") || strings.HasPrefix(m, "Has") {
+		if !accessorMutator(m) {
 			return fr.freshResults(ci.sig, "ret_"+m)
 		}
-		if strings.HasPrefix(m, "Set") {
+		if accessorMutator(m) {
 			// a setter changes only the wrapped API object: Go memory, and the abstract rows of the adapter and of its client object
 			nm := fr.curMem.clone()
 			// (Go memory is not havocked: the fields behind the accessor interfaces are read through accessors only — stated assumption)
@@ -1421,4 +1421,14 @@ func modelsIn(e Expr, S *Specs) []string {
 	}
 	walk(e)
 	return sortedKeys(seen)
+}
+
+// accessorMutator: methods of the adapter interfaces that change the wrapped object (by naming convention).
+func accessorMutator(m string) bool {
+	for _, p := range []string{"Set", "Remove", "Update", "Add", "Delete"} {
+		if strings.HasPrefix(m, p) {
+			return true
+		}
+	}
+	return false
 }
